@@ -379,12 +379,16 @@ def main_check(prop, tier, seed):
         if cur is None or size < cur[0]:
             by_key[k] = (size, v)
     out_lines = []
-    for k, (_, v) in by_key.items():
+    MAX_LINES = 12
+    for k, (_, v) in list(by_key.items())[:MAX_LINES]:
         v['occurrences'] = merged.violation_counts.get(k, 1)
         path = write_replay(prop.ID, v)
         out_lines.append('VIOLATION property=%s replay=%s clause=%s key=%s occurrences=%d'
                          % (prop.ID, path, v['clause'], short(v['key'], 160), v['occurrences']))
     nviol = len(by_key)
+    if nviol > MAX_LINES:
+        out_lines.append('(%d further distinct violation keys not listed; see evidence)' % (nviol - MAX_LINES))
+        fin.setdefault('extra', {})['violation_keys'] = [k for k in by_key][:200]
     if nviol:
         verdict = 'violated'
     elif inconclusive:
